@@ -38,7 +38,7 @@ VARIABLES objs,    \* oid -> object record (see NewObj)
 vars == <<objs, nobj, stack, doc, nops, last>>
 
 Oids == 1..nobj
-Cfg0 == [version |-> "gfa2", vlevel |-> 1]
+Cfg0 == [version |-> "gfa2", vlevel |-> 1, dialect |-> "standard"]
 
 \* object: line = abstract line as given (mentions by name), tgt = for each mention the oid it
 \* points to (0 = unresolved string), br = back-references as a sequence of <<key, oid>>,
@@ -47,7 +47,7 @@ NewObj(l, virt) == [line |-> l, tgt |-> [i \in DOMAIN l.refs |-> 0], br |-> <<>>
 
 PlaceholderLine(id, asSeg) ==
   [rt |-> IF asSeg THEN "S" ELSE "?", name |-> id, refs |-> <<>>, f |-> IF asSeg THEN <<"1", "*">> ELSE <<>>,
-   num |-> IF asSeg THEN <<1>> ELSE <<>>, tags |-> <<>>, tagn |-> <<>>, ovs |-> <<>>]
+   num |-> IF asSeg THEN <<1>> ELSE <<>>, tags |-> <<>>, tagn |-> <<>>, tagt |-> <<>>, ovs |-> <<>>]
 
 Registered(o) == {i \in DOMAIN o : o[i].reg}
 ByName(o, id) == {i \in Registered(o) : o[i].line.name = id /\ id # "*"}
